@@ -26,10 +26,10 @@ def run(ctx, gen_status):
         spikes = spikes[:400]
     het = []
     for _ in range(ctx.n(60, 600)):
-        M = r.randint(3, 10)
-        k = r.randint(1, 5)
+        M = r.randint(3, 24)
+        k = r.randint(1, 13)            # every tree shape: odd / even levels at several depths
         ns = [r.randint(1, 4) for _ in range(k)]
-        i0s = [r.choice([M, M + 1, M - 1 if M > 0 else M]) for _ in range(k)]
+        i0s = [r.choice([M, M, M + 1, M - 1 if M > 0 else M]) for _ in range(k)]
         het.append({'M': M, 'ns': ns, 'i0s': i0s, 'shifts': [r.choice([0.0, 0.1, -0.2]) for _ in range(k)]})
     br = []
     for _ in range(ctx.n(10, 120)):
